@@ -158,6 +158,14 @@ def startupCached (cached : Bool) (orphanFatal : Bool) (fs : FileSet) : Loaded Ã
   | .sealed _ => (if fs.index = .empty âˆ§ cached = false then .down else .sealed, loadEffect orphanFatal fs)
   | _ => SV.FileSet.startup orphanFatal fs
 
+/-! ## the order of `fm.fracs` after start-up -/
+
+/-- `loader.load` on the fractions of the data directory, given in the order of their ids (`sort.Strings(fracIDs)`;
+ULIDs: id order = creation order) as (id, was it unsealed?): the sealed ones are appended in that order by the first
+loop, the unsealed ones - replayed one after the other in that order - behind them -/
+def loadOrder (fr : List (Nat Ã— Bool)) : List Nat :=
+  (fr.filter (fun x => !x.2)).map (Â·.1) ++ (fr.filter (fun x => x.2)).map (Â·.1)
+
 /-- what `.frac-cache` holds for a fraction when the store starts -/
 inductive CacheEntry
   | missing      -- no entry (no file, unreadable file, older file)
